@@ -266,12 +266,25 @@ let show_out (k : kind) (tag : string) (o : out) : string =
 
 let show_int_z (z : z) = string_of_int (int_of_z z)
 
+(* Optional second model: the REGENERATED program (ocaml/genhook.ml, linked only into the driver built from
+   Extract/ExtractGen.v).  For the kinds it covers it executes the same operation on its own heap state and returns
+   its output; where that differs from the hand-written model's output the line gets a suffix, so that it no longer
+   equals the implementation's line either and the disagreement is reported with the command list. *)
+let gen_new : (string -> unit) ref = ref (fun _ -> ())
+let gen_hook : (string -> kind -> op -> out option) ref = ref (fun _ _ _ -> None)
+let with_gen (tid : string) (k : kind) (tag : string) (o : op) (model_line : string) : string =
+  match !gen_hook tid k o with
+  | None -> model_line
+  | Some og ->
+    let gl = show_out k tag og in
+    if gl = model_line then model_line else model_line ^ " !REGENERATED-PROGRAM-SAYS: " ^ gl
+
 let run_tree_op (tid : string) (tag : string) (mk : kind -> op) : string =
   let (k, st) = Hashtbl.find trees tid in
   let (st', o) = step k st (mk k) in
   Hashtbl.replace trees tid (k, st');
   record tid k (mk k) o;
-  show_out k tag o
+  with_gen tid k tag (mk k) (show_out k tag o)
 
 (* a sequence value ranged over once per stop in "s1/s2/..." *)
 let run_seq_op (tid : string) (tag : string) (stops : string) (mk : kind -> nat option -> op) : string =
@@ -279,7 +292,7 @@ let run_seq_op (tid : string) (tag : string) (stops : string) (mk : kind -> nat 
   let pass stop =
     let (_, o) = step k st (mk k (parse_stop stop)) in
     record tid k (mk k (parse_stop stop)) o;
-    let s = show_out k tag o in
+    let s = with_gen tid k tag (mk k (parse_stop stop)) (show_out k tag o) in
     (* strip "<tag> " *)
     String.sub s (String.length tag + 1) (String.length s - String.length tag - 1) in
   (* "nJ": a full pass during which, at element J, the same sequence value is ranged over completely: the
@@ -298,7 +311,7 @@ let handle (line : string) : string option =
   match toks with
   | [] -> None
   | t :: _ when String.length t > 0 && t.[0] = '#' -> None
-  | ["NEW"; tid; ks; _variant] -> Hashtbl.replace trees tid (parse_kind ks, init); Some "NEW"
+  | ["NEW"; tid; ks; _variant] -> Hashtbl.replace trees tid (parse_kind ks, init); !gen_new tid; Some "NEW"
   | ["I"; tid; key; v] -> Some (run_tree_op tid "I" (fun k -> Insert (parse_key k key, z_of_int (int_of_string v))))
   | ["S"; tid; key] -> Some (run_tree_op tid "S" (fun k -> Search (parse_key k key)))
   | ["D"; tid; key] -> Some (run_tree_op tid "D" (fun k -> Delete (parse_key k key)))
@@ -371,7 +384,7 @@ let handle (line : string) : string option =
     Some ("NDUMP " ^ Buffer.contents b)
   | _ -> failwith ("bad command: " ^ line)
 
-let () =
+let main () =
   let ic = if Array.length Sys.argv > 1 then open_in Sys.argv.(1) else stdin in
   let oc = if Array.length Sys.argv > 2 then open_out Sys.argv.(2) else stdout in
   (try
